@@ -540,6 +540,8 @@ class _InlineExprHelpers(ast.NodeTransformer):
             return node
         fn, is_method = found
         body = _strip(copy.deepcopy(fn.body))
+        if len(body) > 1:                                   # `x = <pure>; return f(x)`: inline the locals first
+            body = _strip(_simplify_locals(body, {a.arg for a in fn.args.args + fn.args.kwonlyargs}))
         if len(body) != 1 or not isinstance(body[0], ast.Return) or body[0].value is None or _has(body[0].value, ast.Await):
             return node
         bound = _bind(fn, node, is_method)
@@ -678,11 +680,53 @@ def _loops(stmts: list[ast.stmt]) -> list[ast.stmt]:
     return out
 
 
+class _AllAny(ast.NodeTransformer):
+    """`not all(p for x in it)` = `any(not p for x in it)`;  `not any(p …)` = `all(not p …)`."""
+
+    def visit_UnaryOp(self, node: ast.UnaryOp):  # noqa: N802
+        self.generic_visit(node)
+        c = node.operand
+        if isinstance(node.op, ast.Not) and isinstance(c, ast.Call) and isinstance(c.func, ast.Name) and c.func.id in ("all", "any") \
+                and len(c.args) == 1 and not c.keywords and isinstance(c.args[0], (ast.GeneratorExp, ast.ListComp)):
+            g = c.args[0]
+            return ast.Call(func=ast.Name(id="any" if c.func.id == "all" else "all", ctx=ast.Load()),
+                            args=[type(g)(elt=_neg(g.elt), generators=g.generators)], keywords=[])
+        return node
+
+
+def _flag_loops(stmts: list[ast.stmt]) -> list[ast.stmt]:
+    """`flag = False; while not flag: …; flag = True  (in tail position of the body)`  ->  `while True: …; break`."""
+    stmts = [_map_blocks(s, _flag_loops) for s in stmts]
+    for i, s in enumerate(stmts):
+        if not (isinstance(s, ast.While) and not s.orelse and isinstance(s.test, ast.UnaryOp) and isinstance(s.test.op, ast.Not)
+                and isinstance(s.test.operand, ast.Name)):
+            continue
+        flag = s.test.operand.id
+        inits = [j for j, x in enumerate(stmts[:i]) if _simple_target(x) == flag]
+        if len(inits) != 1 or _u(stmts[inits[0]].value) != "False":
+            continue
+        whole = ast.Module(body=stmts, type_ignores=[])
+        loads = [n for n in ast.walk(whole) if isinstance(n, ast.Name) and n.id == flag and isinstance(n.ctx, ast.Load)]
+        stores = [x for x in _walk_stmts(stmts) if _simple_target(x) == flag]
+        other = [n for n in ast.walk(whole) if isinstance(n, (ast.AugAssign, ast.NamedExpr, ast.For, ast.ExceptHandler, ast.With))
+                 and flag in {m.id for m in ast.walk(n.target if hasattr(n, "target") and n.target is not None else ast.Pass()) if isinstance(m, ast.Name)}]
+        tails = [(b, k) for b, k in _tail_stmts(s.body) if _simple_target(b[k]) == flag and _u(b[k].value) == "True"]
+        if len(loads) != 1 or other or len(stores) != 1 + len(tails) or not tails:
+            continue                                        # used elsewhere, or set somewhere that is not a tail of the body
+        for b, k in tails:
+            b[k] = ast.Break()
+        s.test = ast.Constant(value=True)
+        del stmts[inits[0]]
+        return _flag_loops(stmts)
+    return stmts
+
+
 def _normalise(fn: ast.FunctionDef | ast.AsyncFunctionDef, cls: ast.ClassDef | None = None, mod: ast.Module | None = None,
                exclude: frozenset[str] | set[str] = frozenset()) -> list[ast.stmt]:
-    body = _PositionalArgs().visit(ast.Module(body=copy.deepcopy(fn.body), type_ignores=[])).body
+    body = _AllAny().visit(_PositionalArgs().visit(ast.Module(body=copy.deepcopy(fn.body), type_ignores=[]))).body
     params = {a.arg for a in fn.args.args + fn.args.kwonlyargs}
     body = _strip(body)
+    body = _flag_loops(body)
     if cls is not None or mod is not None:
         body = _inline_helpers(body, cls, mod, set(exclude))
     body = _split_tuple_assign(body)
@@ -728,19 +772,84 @@ def _dnf(paths: list[list[tuple[ast.expr, bool]]], tr) -> str:
     for conds in paths:
         if not conds:
             return "true"
-        lits = [tr(e) if pol else f"(!{tr(e)})" for e, pol in conds]
+        lits = [tr(e) if pol else neg_term(tr(e)) for e, pol in conds]
         terms.append("(" + " && ".join(lits) + ")")
     return "(" + " || ".join(terms) + ")"
 
 
 # ----------------------------------------------------------------------------- expressions
+def _balanced(t: str) -> bool:
+    d = 0
+    for ch in t:
+        d += ch == "("
+        d -= ch == ")"
+        if d < 0:
+            return False
+    return d == 0
+
+
+def _atomic(t: str) -> bool:
+    return (t.startswith("(") and t.endswith(")") and _balanced(t[1:-1])) or all(ch.isalnum() or ch in "._" for ch in t)
+
+
+def _split_top(t: str, op: str) -> list[str] | None:
+    """`(a op b op c)` -> [a, b, c] (top level only)."""
+    if not (t.startswith("(") and t.endswith(")") and _balanced(t[1:-1])):
+        return None
+    body, parts, d, cur, i = t[1:-1], [], 0, "", 0
+    while i < len(body):
+        ch = body[i]
+        d += ch == "("
+        d -= ch == ")"
+        if d == 0 and body.startswith(f" {op} ", i):
+            parts.append(cur)
+            cur = ""
+            i += len(op) + 2
+            continue
+        cur += ch
+        i += 1
+    parts.append(cur)
+    other = "&&" if op == "||" else "||"
+    if len(parts) < 2 or any(_split_top(f"({x})", other) for x in parts if not x.startswith("(")):
+        return None
+    return parts
+
+
+_COMPL = {"<": "≥", "≥": "<", "≤": ">", ">": "≤", "=": "≠", "≠": "="}
+
+
+def neg_term(t: str) -> str:
+    """The negation of a Bool term, pushed inside (Int comparisons are complemented: exact on a total order)."""
+    if t.startswith("!"):
+        w = t[1:]
+        return w[1:-1] if w.startswith("(") and w.endswith(")") and _balanced(w[1:-1]) else w
+    if t == "limit.isNone":
+        return "limit.isSome"
+    if t == "limit.isSome":
+        return "limit.isNone"
+    if t.startswith("decide (") and t.endswith(")") and _balanced(t[len("decide ("):-1]):
+        inner = t[len("decide ("):-1]
+        d = 0
+        for i, ch in enumerate(inner):
+            d += ch == "("
+            d -= ch == ")"
+            if d == 0 and ch in _COMPL and inner[i - 1] == " " and inner[i + 1] == " ":
+                return f"decide ({inner[:i]}{_COMPL[ch]}{inner[i + 1:]})"
+    for op, other in (("||", "&&"), ("&&", "||")):
+        parts = _split_top(t, op)
+        if parts:
+            return "(" + f" {other} ".join(neg_term(x) for x in parts) + ")"
+    return f"!{t}" if _atomic(t) else f"!({t})"
+
+
+
 def _expr(e: ast.expr, env: dict[str, str]) -> str:
     """A boolean test over a Nat counter `n` / an Option Nat `limit` as a Lean Bool term."""
     if isinstance(e, ast.BoolOp):
         op = " || " if isinstance(e.op, ast.Or) else " && "
         return "(" + op.join(_expr(v, env) for v in e.values) + ")"
     if isinstance(e, ast.UnaryOp) and isinstance(e.op, ast.Not):
-        return f"(!{_expr(e.operand, env)})"
+        return neg_term(_expr(e.operand, env))           # negation pushed inside (De Morgan, complemented comparisons)
     if isinstance(e, ast.Compare) and len(e.ops) > 1:  # a < b < c
         parts, left = [], e.left
         for op, right in zip(e.ops, e.comparators):
@@ -938,14 +1047,22 @@ def _find_loop(stmts: list[ast.stmt]) -> ast.While | None:
     return None
 
 
-def _is_result_helper(mod: ast.Module, name: str) -> bool:
-    """`def h(t): try: [_ =] t.result() except BaseException as e: return e; return None`"""
+def _is_result_helper(mod: ast.Module, name: str, cls: ast.ClassDef | None = None) -> bool:
+    """`def h(t): try: [_ =] t.result() except BaseException as e: return e; return None`
+    (a module function, or — with `cls` — a method / static method called as `self.h(t)`)."""
     try:
-        fn = _fn(mod, name)
+        fn = _fn(cls if cls is not None else mod, name)
     except Bad:
         return False
     b = _normalise(fn)
-    arg = fn.args.args[0].arg
+    args = [a.arg for a in fn.args.args]
+    if cls is not None and [_u(d) for d in fn.decorator_list] != ["staticmethod"]:
+        if fn.decorator_list or not args:
+            return False
+        args = args[1:]
+    if len(args) != 1 or fn.args.kwonlyargs or fn.args.vararg or fn.args.kwarg:
+        return False
+    arg = args[0]
     if not b or not isinstance(b[0], ast.Try) or len(b[0].handlers) != 1:
         return False
     t = b[0]
@@ -956,7 +1073,7 @@ def _is_result_helper(mod: ast.Module, name: str) -> bool:
     return bool(ok_body and ok_h and ok_tail and not t.orelse and not t.finalbody)
 
 
-def _collects(forstmt: ast.For, mod: ast.Module) -> str | None:
+def _collects(forstmt: ast.For, mod: ast.Module, cls: ast.ClassDef | None = None) -> str | None:
     """`for t in D: <append the exception of t.result() to L>` -> L."""
     if not isinstance(forstmt.target, ast.Name) or forstmt.orelse:
         return None
@@ -984,8 +1101,14 @@ def _collects(forstmt: ast.For, mod: ast.Module) -> str | None:
             pre_assign = None
             if isinstance(arg, ast.Name):
                 return None
-            if isinstance(call, ast.Call) and isinstance(call.func, ast.Name) and [_u(a) for a in call.args] == [t] \
-                    and _is_result_helper(mod, call.func.id) and len(conds) == 1:
+            is_helper = False
+            if isinstance(call, ast.Call) and [_u(a) for a in call.args] == [t] and not call.keywords:
+                if isinstance(call.func, ast.Name):
+                    is_helper = _is_result_helper(mod, call.func.id)
+                elif isinstance(call.func, ast.Attribute) and isinstance(call.func.value, ast.Name) and call.func.value.id == "self" \
+                        and cls is not None:
+                    is_helper = _is_result_helper(mod, call.func.attr, cls)
+            if is_helper and len(conds) == 1:
                 e, pol = conds[0]
                 if (_u(e), pol) in ((f"{_u(call)} is not None", True), (f"{_u(call)} is None", False)):
                     return acts[0].value.func.value.id
@@ -1027,7 +1150,7 @@ def _service(src: str) -> list[str]:
     fors = [s for s in loop.body[iw + 1:] if isinstance(s, ast.For) and _u(s.iter) == done]
     if len(fors) != 1:
         raise Bad("wait loop: no loop over the finished tasks")
-    lst = _collects(fors[0], tree)
+    lst = _collects(fors[0], tree, svc)
     if lst is None:
         raise Bad("wait loop: cannot see that every exception of `task.result()` is appended to one list")
 
@@ -1168,7 +1291,7 @@ def _inline_result_local(stmts: list[ast.stmt]) -> list[ast.stmt]:
     for s in stmts:
         s = _map_blocks(s, _inline_result_local)
         if isinstance(s, ast.For) and s.body and _simple_target(s.body[0]) and isinstance(s.body[0].value, ast.Call) \
-                and isinstance(s.body[0].value.func, ast.Name):
+                and isinstance(s.body[0].value.func, (ast.Name, ast.Attribute)):
             name, val = _simple_target(s.body[0]), s.body[0].value
             mod = ast.Module(body=s.body[1:], type_ignores=[])
             s.body = _Subst(name, val).visit(mod).body
